@@ -6,6 +6,7 @@ from lib import pyvals as pv
 from lib.gallina import gstr, gbool, glist, gpair, gopt, gnat
 
 ID = "C06"
+LOG_LEVEL_INVARIANT = True      # (harness/vp.py: a sample of the cases again with logging at DEBUG; same observables)
 RUN_MODULE = "RunC06"
 DRIVER = "keys_driver.py"
 SHARD = 160
